@@ -83,7 +83,10 @@ const UNENCODABLE: &[char] = &['é', 'ß', '€', '한', '😀', 'ñ', '\u{200b}
 fn pick_char(rng: &mut Rng, set: &str) -> char { let v: Vec<char> = set.chars().collect(); v[rng.below(v.len())] }
 
 #[derive(Copy, Clone, PartialEq, Eq)]
-enum Flavor { Ascii, Kana, Kanji, Boundary, Mixed }
+enum Flavor { Ascii, Kana, Kanji, Boundary, Mixed, TwoByteUtf8, Control }
+/// characters that take two bytes in UTF-8 AND two bytes in Shift-JIS (no three-byte UTF-8 character
+/// around them: buffer-size estimates based on the UTF-8 length are exact only with those)
+const TWO_BYTE_UTF8: &str = "×÷°±§¨´¶αβγδεζηθικλμνξοπρστυφχψωΑΒΓΔΩАБВГДЕЖЗИЙКЛМНОПЯабвгдежзийклмнопя";
 
 fn gen_text(rng: &mut Rng, nchars: usize, flavor: Flavor, furigana: bool) -> String {
     let mut s = String::new();
@@ -94,8 +97,20 @@ fn gen_text(rng: &mut Rng, nchars: usize, flavor: Flavor, furigana: bool) -> Str
             Flavor::Ascii => s.push(match rng.below(12) { 0 => '\\', 1 => '"', 2 => '|', 3 => '~', 4 => 'w', 5 => ' ', _ => (0x21u8 + rng.below(0x5e) as u8) as char }),
             Flavor::Kana => s.push(match rng.below(3) { 0 => pick_char(rng, HIRAGANA), 1 => pick_char(rng, KATAKANA), _ => pick_char(rng, HALFWIDTH) }),
             Flavor::Kanji => s.push(if rng.chance(1, 4) { pick_char(rng, SYMBOLS) } else { pick_char(rng, KANJI) }),
+            Flavor::TwoByteUtf8 => s.push(if rng.chance(1, 3) { (0x21u8 + rng.below(0x5e) as u8) as char } else { pick_char(rng, TWO_BYTE_UTF8) }),
+            // ASCII control characters (not NUL) next to hex digits and letters: the printer has to escape them
+            // in a way the lexer reads back unambiguously
+            Flavor::Control => s.push(match rng.below(3) { 0 => (1u8 + rng.below(0x1f) as u8) as char, 1 => *rng.pick(&['0', '1', '7', '9', 'a', 'b', 'e', 'f', 'A', 'F', 'x', 'u', '{', '}']), _ => (0x21u8 + rng.below(0x5e) as u8) as char }),
             _ => s.push(pick_char(rng, BOUNDARY)),
         }
+    }
+    // (ends that matter to an encoder working with an exactly sized buffer: two-byte character, then one ASCII character)
+    if flavor == Flavor::TwoByteUtf8 && nchars >= 2 && rng.chance(1, 2) {
+        let mut v: Vec<char> = s.chars().collect();
+        let n = v.len();
+        v[n - 2] = pick_char(rng, TWO_BYTE_UTF8); v[n - 1] = (0x21u8 + rng.below(0x5e) as u8) as char;
+        if v[n - 1] == '"' || v[n - 1] == '\\' { v[n - 1] = 'C'; }
+        s = v.into_iter().collect();
     }
     s
 }
@@ -273,7 +288,7 @@ impl Prop for C15 {
             let ops = msg_string_ops(game);
             let count = 1 + rng.below(4);
             let furi_run = rng.chance(1, 3);
-            let flavor = *rng.pick(&[Flavor::Ascii, Flavor::Kana, Flavor::Kanji, Flavor::Boundary, Flavor::Mixed, Flavor::Mixed]);
+            let flavor = *rng.pick(&[Flavor::Ascii, Flavor::Kana, Flavor::Kanji, Flavor::Boundary, Flavor::Mixed, Flavor::Mixed, Flavor::TwoByteUtf8, Flavor::Control]);
             let mut items = vec![];
             for _ in 0..count {
                 let op = rng.pick(&ops).0;
@@ -324,7 +339,7 @@ impl Prop for C15 {
         // (b4) ANM entry paths (block-padded C string)
         for n in 0..400 * scale {
             let game = *rng.pick(&["th06", "th08", "th12", "th17"]);
-            let flavor = *rng.pick(&[Flavor::Ascii, Flavor::Ascii, Flavor::Kanji, Flavor::Boundary, Flavor::Mixed]);
+            let flavor = *rng.pick(&[Flavor::Ascii, Flavor::Ascii, Flavor::Kanji, Flavor::Boundary, Flavor::Mixed, Flavor::TwoByteUtf8]);
             let len = *rng.pick(&[1usize, 7, 8, 14, 15, 16, 17, 31, 32, 33, 100, 300]);
             let l = if n % 7 == 0 { len } else { 1 + rng.below(40) };
             let mut t = gen_text(rng, l, flavor, false);
